@@ -513,6 +513,8 @@ func call(i *interpreter, caller *frame, callpos token.Pos, fn value, args []val
 		return callSSA(i, caller, callpos, fn.Fn, args, fn.Env)
 	case *ssa.Builtin:
 		return callBuiltin(caller, callpos, fn, args)
+	case nativeFunc:
+		unsup("call of a native closure without SSA counterpart: %s", fn.name)
 	}
 	panic(fmt.Sprintf("cannot call %T", fn))
 }
